@@ -558,7 +558,7 @@ PROPS["C05"] = {"run": lambda p, tier, seed, replay, t0: run_node_property(
     corr_kinds=CAT_KINDS | {"users", "user", "create-user", "delete-user", "update-user", "update-perms", "change-pw",
                             "create-pat", "delete-pat", "pats", "login", "login-pat"},
     assumptions=ASSUME_NODE)}
-PROPS["C06"] = catalog("C06", "Iggy.Props.C06", ["obs-changed", "poll-"], CAT_KINDS, ASSUME_NODE)
+PROPS["C06"] = catalog("C06", "Iggy.Props.C06", ["obs-changed", "poll-", "group-"], CAT_KINDS, ASSUME_NODE)
 
 import gen_crypto
 PROPS["C19"] = {"run": lambda p, tier, seed, replay, t0: run_node_property(
@@ -573,7 +573,7 @@ PROPS["C19"] = {"run": lambda p, tier, seed, replay, t0: run_node_property(
 import gen_auth
 PROPS["C10"] = {"run": lambda p, tier, seed, replay, t0: run_node_property(
     p, tier, seed, replay, t0, module="Iggy.Props.C10", gen=gen_auth.gen, n_quick=120, n_thorough=2000,
-    spec_prefixes=["secret-in-clear", "obs-changed"],
+    spec_prefixes=["secret-in-clear", "obs-changed", "credential-"],
     corr_kinds={"login", "login-pat", "logout", "create-user", "delete-user", "update-user", "update-perms",
                 "change-pw", "user", "users", "create-pat", "delete-pat", "pats", "clean-pats", "me", "restart"},
     assumptions=ASSUME_NODE + [
